@@ -228,7 +228,7 @@ class CatLinearOperator(LinearOperator):
 
         # If any of the (non-cat_dim) batch indices are ints, make sure that we appropriately update the cat_dim
         updated_cat_dim = self.cat_dim
-        if self.cat_dim < -2:
+        if self.cat_dim < -3:
             batch_indices_below_cat_dim = batch_indices[self.cat_dim + 3 :]
             num_collapsed_dims = len(tuple(idx for idx in batch_indices_below_cat_dim if isinstance(idx, int)))
             updated_cat_dim += num_collapsed_dims
